@@ -211,6 +211,127 @@ def gen_zhelix_case(rng):
     return "run " + " ".join(f"{k}={v}" for k, v in kv.items()), meta
 
 
+def gen_tiny_radius_case(rng):
+    """gyroradius far below the geometry scale (2e-5 .. 3e-3 cm: eV electrons in tesla fields)
+    with a momentum component ALONG the field and steps of 1e-2 .. 1 cm, mostly with the DEFAULT
+    driver options: FieldDriver::accurate_advance runs out of its max_nsteps integrations and
+    must then report the arc it actually integrated; the end point is compared with the analytic
+    helix (uniform fields only)."""
+    gname = rng.choice(["two-boxes", "simple-cms", "field-layers", "three-spheres", "one-steel-sphere",
+                        "testem3-flat"])
+    half, cen, scale = GEOS[gname]
+    par = rng.choice(["e-", "e-", "e+", "mu-", "p", "alpha"])
+    e = log_uniform(rng, 1e-7, 1e-3)
+    p, q = momentum_of(par, e), PARTICLES[par][1]
+    radius = log_uniform(rng, 2e-5, 3e-3)
+    bmag = p / (C_R * abs(q) * radius) * TESLA
+    h = rnd_dir(rng) if rng.chance(1, 2) else [0.0, 0.0, rng.choice([1.0, -1.0])]
+    fld = "z" if (h[0] == 0.0 and h[1] == 0.0) else "u"
+    b = [c * bmag for c in h]
+    # direction with cos(angle to B) in +-[0.3, 0.97]
+    cpar = (0.3 + 0.67 * rng.unit()) * rng.choice([1.0, -1.0])
+    t = unit([rng.unit() * 2 - 1 for _ in range(3)])
+    dot = sum(t[i] * h[i] for i in range(3))
+    perp = unit([t[i] - dot * h[i] for i in range(3)])
+    sp = math.sqrt(1 - cpar * cpar)
+    d = unit([cpar * h[i] + sp * perp[i] for i in range(3)])
+    k = rng.below(8)
+    o = list(DEFAULT_OPTS)
+    if k == 0:
+        o[11] = 10
+    elif k == 1:
+        o[11] = 50
+    elif k == 2:
+        o = gen_opts(rng)
+        o[11] = max(o[11], 10)
+    pos = [cen[i] + (rng.unit() * 2 - 1) * half[i] * 0.6 for i in range(3)]
+    steps = [log_uniform(rng, 1e-2, 1.0) for _ in range(rng.choice([1, 2, 3]))]
+    kv = {"geo": gname, "fld": fld, "B": v3(b), "stp": rng.choice(["dp", "dp", "rk4"]), "par": par,
+          "E": hx(e), "pos": v3(pos), "dir": v3(d), "opts": opts_str(o),
+          "steps": ",".join(hx(x) for x in steps), "pre": "0", "cross": "1"}
+    meta = {"geo": gname, "fld": fld, "B": b, "stp": kv["stp"], "par": par, "E": e, "p": p, "q": q,
+            "pos": pos, "dir": d, "opts": o, "steps": steps, "pre": "0", "radius": radius,
+            "ratio": radius / scale, "tiny_radius": True}
+    return "run " + " ".join(f"{k}={v}" for k, v in kv.items()), meta
+
+
+def gen_budget_probe(rng):
+    """first stage of the substep-budget cases: a curved track that meets no boundary (small circle
+    in the inner box of two-boxes, or near the axis of the 30 cm beam pipe of simple-cms) asked
+    for a step far longer than max_substeps chord-limited substeps"""
+    if rng.chance(1, 2):
+        gname, radius, cz = "two-boxes", log_uniform(rng, 0.05, 1.5), 0.0
+        pos = [(rng.unit() - 0.5) * 4, (rng.unit() - 0.5) * 4, (rng.unit() - 0.5) * 6]
+    else:
+        gname, radius, cz = "simple-cms", log_uniform(rng, 0.1, 5.0), (rng.unit() * 1.6 - 0.8)
+        pos = [(rng.unit() - 0.5) * 20, (rng.unit() - 0.5) * 20, (rng.unit() - 0.5) * 100]
+    par = rng.choice(list(PARTICLES))
+    e = log_uniform(rng, 1e-2, 1e4)
+    p, q = momentum_of(par, e), PARTICLES[par][1]
+    sint = math.sqrt(1 - cz * cz)
+    bz = p / (C_R * abs(q) * radius) * TESLA * rng.choice([1.0, -1.0])
+    a = rng.unit() * 2 * math.pi
+    d = [math.cos(a) * sint, math.sin(a) * sint, cz]
+    o = list(DEFAULT_OPTS) if rng.chance(2, 3) else gen_opts(rng)
+    if o[11] < 20:
+        o[11] = 100               # keep the known max_nsteps finding out of these cases
+    o[12] = rng.choice([1, 2, 4, 10, 10, 10])
+    fld = rng.choice(["z", "u"])
+    stp = rng.choice(["dp", "dp", "rk4"])
+    meta = {"geo": gname, "fld": fld, "B": [0.0, 0.0, bz], "stp": stp, "par": par, "E": e, "p": p,
+            "q": q, "pos": pos, "dir": d, "opts": o, "pre": "0", "radius": radius,
+            "ratio": radius / GEOS[gname][2], "budget_edge": True}
+    return meta
+
+
+def budget_line(meta, steps):
+    kv = {"geo": meta["geo"], "fld": meta["fld"], "B": v3(meta["B"]), "stp": meta["stp"],
+          "par": meta["par"], "E": hx(meta["E"]), "pos": v3(meta["pos"]), "dir": v3(meta["dir"]),
+          "opts": opts_str(meta["opts"]), "steps": ",".join(hx(x) for x in steps), "pre": "0",
+          "cross": "1"}
+    return "run " + " ".join(f"{k}={v}" for k, v in kv.items())
+
+
+def budget_edge_cases(rng, exe, n):
+    """second stage: steps of (k - 1 + f) chord-limited substeps for k = max_substeps, i.e. steps
+    that are completed by exactly the LAST allowed substep (f in (0, 1]), next to steps just
+    below (k - 1 substeps) and just above (genuinely looping).  The substep lengths come from a
+    probe run of the real code with a very long step."""
+    probes = [gen_budget_probe(rng) for _ in range(n)]
+    _, out = vlib.run_lines([exe], [budget_line(m, [m["radius"] * 500.0]) for m in probes])
+    cases = []
+    for m, o in zip(probes, out):
+        if not o.startswith("B "):
+            continue
+        try:
+            seg = parse_trace(o)[0]
+        except (ValueError, IndexError):
+            continue
+        subs, last = [], None
+        res = None
+        for t, a in seg["events"]:
+            if t == "->adv":
+                last = fl(a[0])
+            elif t == "->fns" and a[0] == "0" and last is not None:
+                subs.append(last)
+            elif t == "res":
+                res = a
+        nmax = m["opts"][12]
+        if res is None or res[2] != "1" or len(subs) != nmax:
+            continue
+        d_prev, s_last = sum(subs[:-1]), subs[-1]
+        steps = [d_prev + f * s_last for f in (0.5, 0.85, 0.2)]
+        steps.append(d_prev + s_last)                     # the probe's looping distance itself
+        steps.append((d_prev + s_last) * 1.08)            # one substep too many: looping
+        if nmax > 1:
+            steps.append(d_prev * 0.97)                   # completed with a substep to spare
+        rng.shuffle(steps)
+        mm = dict(m)
+        mm["steps"] = steps
+        cases.append((budget_line(m, steps), mm))
+    return cases
+
+
 def gen_tangent_case(rng):
     """two-boxes (inner box |x|,|y|,|z| <= 5): circular track in the x-y plane whose circle
     touches the plane x = 5 within eps (near-tangent incidence), uniform z field"""
@@ -395,7 +516,8 @@ def check_segment(seg, meta, st, fails, line, xc=None):
     chord_len = None
     arcs = driver_arcs(seg)
     k_adv = 0
-    tainted = False          # a driver answer whose state and step length do not belong together
+    tainted = False          # known finding: driver loop left with max_nsteps spent (arc > step)
+    n_accept = 0             # substeps accepted by the propagator (no boundary along the chord)
     for t, a in ev:
         if t == "g0":
             g0 = [fl(x) for x in a]
@@ -427,7 +549,18 @@ def check_segment(seg, meta, st, fails, line, xc=None):
             k_adv += 1
             if arc is None:
                 st.inc("driver_answers_arc_unknown")
-            elif abs(arc - sub) > 1e-9 * max(arc, sub):
+            elif arc < sub * (1 - 1e-9):
+                # the driver claims a longer step than it integrated.  The known max_nsteps finding
+                # goes the other way (arc > step), and a short accurate_advance must be reported
+                # as short (`output.end = accurate_advance(...)` takes its step too): own key
+                st.inc("driver_step_exceeds_arc")
+                fails.append(("driver-step-exceeds-integrated-arc",
+                              "FieldDriver::advance reports a substep LONGER than the arc it "
+                              "integrated into the returned state (e.g. accurate_advance ran out "
+                              "of max_nsteps integrations but the chord-search length is reported)",
+                              {"requested": rem, "returned_step": sub, "arc_of_returned_state": arc,
+                               "max_nsteps": o[11], "default_options": o == DEFAULT_OPTS}))
+            elif arc > sub * (1 + 1e-9):
                 # FieldDriver::find_next_chord / one_good_step left their loop with max_nsteps spent:
                 # the step was scaled once more AFTER the last stepper call, so the returned
                 # `step` is shorter than the arc actually integrated into the returned `state`
@@ -476,8 +609,10 @@ def check_segment(seg, meta, st, fails, line, xc=None):
                 if not (0 <= dd <= pending_max * (1 + 1e-12)):
                     fails.append(("contract:geo-distance-range", "find_next_step(max) reports a boundary "
                                   "at a distance outside [0, max]", {"max": pending_max, "distance": dd}))
-            elif not (dd == pending_max):
-                st.inc("geo_noboundary_distance_ne_max")
+            else:
+                n_accept += 1
+                if not (dd == pending_max):
+                    st.inc("geo_noboundary_distance_ne_max")
         elif t == "mi":
             last_move = "mi"
         elif t == "->mtb":
@@ -509,6 +644,25 @@ def check_segment(seg, meta, st, fails, line, xc=None):
     # (3) exactly one of: boundary / looping / full step (or a bump after no progress)
     if boundary and looping:
         fails.append(("oracle:boundary-and-looping", "both boundary and looping set", {}))
+    # (3b) the outcomes are exclusive (Props/C08 looping_implies_incomplete): looping means the
+    # step was NOT completed and the whole substep budget was spent; a spent budget without the
+    # looping flag means the step was completed
+    if looping and not (distance < step):
+        fails.append(("oracle:looping-but-step-completed", "looping flag set although the full step "
+                      "was travelled (distance == step): PropagationApplier would treat a completed "
+                      "step as propagation-limited / count it towards the looping cut",
+                      {"step": step, "distance": distance, "accepted_substeps": n_accept,
+                       "max_substeps": o[12]}))
+    if looping and n_accept != o[12]:
+        fails.append(("oracle:looping-without-spent-budget", "looping flag set but the number of "
+                      "accepted substeps is not max_substeps",
+                      {"accepted_substeps": n_accept, "max_substeps": o[12]}))
+    if not looping and n_accept == o[12] and n_accept > 0 and not (distance >= step):
+        fails.append(("oracle:budget-spent-unflagged", "max_substeps substeps accepted, step not "
+                      "completed, yet not flagged looping",
+                      {"step": step, "distance": distance, "max_substeps": o[12]}))
+    if n_accept == o[12]:
+        st.inc("budget_spent_looping" if looping else "budget_spent_step_completed")
     if not boundary and not looping and not (distance == step):
         st.inc("result_short_unflagged")       # the stuck-on-boundary bump (documented)
         bump = min(0.1 * delta_int, step)
@@ -534,10 +688,18 @@ def check_segment(seg, meta, st, fails, line, xc=None):
         # eps_rel * distance * (1 + n_int); at a boundary the point is taken on the chord (sagitta
         # <= delta_chord + dchord_tol) within delta_intersection
         n_int = sum(1 for t, _ in ev if t == "st")     # >= number of accepted integration steps
-        tol = (eps_rel * distance * (2.0 + n_int) + (delta_chord + DCHORD_TOL + 2 * delta_int)
-               + 1e-9 * (norm(g0[:3]) + distance))
+        # (the chord / intersection terms only apply to a boundary landing; otherwise the end
+        # point is the end state of an integration step)
+        tol = (eps_rel * distance * (2.0 + n_int)
+               + ((delta_chord + DCHORD_TOL + 2 * delta_int) if boundary else 0.0)
+               + 1e-9 * (norm(g0[:3]) + distance) + 1e-12)
         st.inc("helix_cases")
         st.max("max_helix_residual_over_tol", resid / tol)
+        if meta.get("tiny_radius") or rad < 3e-3:
+            st.inc("helix_cases_tiny_radius")
+            if o == DEFAULT_OPTS:
+                st.inc("helix_cases_tiny_radius_default_options")
+            st.max("max_helix_residual_over_tol_tiny_radius", resid / tol)
         if resid > tol:
             fails.append(("oracle:helix-residual", "end point farther from the analytic helix than "
                           "the configured chord/intersection/integration tolerances allow",
@@ -637,6 +799,24 @@ def direct_ops(ctx, exe, n):
     _, mo = vlib.run_lines([vlib.model_exe("C08")], ml)
     diffs = []
     kinds = {}
+    arc_fails = []
+    for i, l in enumerate(hl):
+        if l.startswith("drv ") and i < len(ho) and ho[i].startswith("adv "):
+            o_ = [fl(x) for x in l.split("opts=")[1].split()[0].split(",")[:11]]
+            nst_ = int(l.split("opts=")[1].split()[0].split(",")[11])
+            try:
+                seg = parse_trace("B 0000000000000000 " + ho[i])[0]
+            except ValueError:
+                continue
+            for req, sub, arc in driver_arcs(seg):
+                if arc is not None and arc < sub * (1 - 1e-9):
+                    arc_fails.append((l, "driver-step-exceeds-integrated-arc",
+                                      {"requested": req, "returned_step": sub,
+                                       "arc_of_returned_state": arc, "max_nsteps": nst_}))
+                elif arc is not None and arc > sub * (1 + 1e-9):
+                    arc_fails.append((l, "driver-max-nsteps-exhausted",
+                                      {"requested": req, "returned_step": sub,
+                                       "arc_of_returned_state": arc, "max_nsteps": nst_}))
     for i, l in enumerate(hl):
         a = ho[i] if i < len(ho) else "<missing>"
         b = (mo[i] if i < len(mo) else "<missing>").replace(" xc ", " ")
@@ -645,7 +825,7 @@ def direct_ops(ctx, exe, n):
         if nan_norm(a) != nan_norm(b):
             diffs.append({"op": l[:600], "impl": a[:300], "model": b[:300],
                           "model_op": ml[i][:300]})
-    return len(hl), diffs, kinds, coeff
+    return len(hl), diffs, kinds, coeff, arc_fails
 
 
 ZH_WITNESSES = [
@@ -715,8 +895,11 @@ def run(ctx):
     n_cases = (1000 if quick else 8000) * (2 if broken else 1)
     cases = []
     for i in range(n_cases):
-        gen = gen_tangent_case if i % 8 == 0 else gen_zhelix_case if i % 8 == 1 else gen_case
+        gen = (gen_tangent_case if i % 8 == 0 else gen_zhelix_case if i % 8 == 1
+               else gen_tiny_radius_case if i % 8 == 2 else gen_case)
         cases.append(gen(rng))
+    # steps completed by exactly the last allowed substep (probe run + targeted steps)
+    cases += budget_edge_cases(rng, exe, (60 if quick else 400) * (2 if broken else 1))
     # corpus: past disagreements first
     corpus = []
     cdir = vlib.os.path.join(vlib.CORPUS, "C08")
@@ -775,12 +958,12 @@ def run(ctx):
                 diverged.append({"run_op": lines[owner[k]], "replay": mlines[k].split()[0],
                                  "first_differing_token": j, "model": " ".join(mt[max(0, j - 4):j + 4]),
                                  "impl": " ".join(et[max(0, j - 4):j + 4])})
-        n_direct, ddiffs, dkinds, coeff = direct_ops(ctx, exe, 2000 if quick else 20000)
+        n_direct, ddiffs, dkinds, coeff, arc_fails = direct_ops(ctx, exe, 2000 if quick else 20000)
         for dd in ddiffs[:50]:
             diverged.append(dd)
     else:
         broken.append("model driver did not build")
-        n_direct, dkinds = 0, {}
+        n_direct, dkinds, arc_fails = 0, {}, []
     if diverged:
         broken.append(f"correspondence: model and implementation differ on {len(diverged)} replays/ops")
     # impl-side oracle and contracts on every recorded propagation
@@ -800,6 +983,17 @@ def run(ctx):
         ctx.violation(key, "real FieldPropagator/FieldDriver: " + what,
                       {"harness": "harness/fieldprop.cc", "op": lines[i], "info": info,
                        "occurrences_this_run": len(items), "case": {k: v for k, v in metas[i].items()}})
+    dseen = {}
+    for l, key, info in arc_fails:
+        dseen.setdefault(key, []).append((l, info))
+    for key, items in sorted(dseen.items()):
+        if key in seen:
+            continue
+        ctx.violation(key, "real FieldDriver (driver alone): advance() returns a step length that is "
+                      "not the arc integrated into the returned state",
+                      {"harness": "harness/fieldprop.cc", "op": items[0][0], "info": items[0][1],
+                       "occurrences_this_run": len(items)})
+        seen[key] = [(None, "", x[1]) for x in items]
     zh_found = zhelix_witnesses(ctx, exe)
     if broken and not ctx.violations:
         ctx.violation("unproved", "; ".join(broken)[:600],
